@@ -278,8 +278,8 @@ class CallMixin:
         sc2.interp = self
         for nm, fn in c.ensures:
             g = fn(sc2)
-            if g is not None:
-                run.assume(g)
+            for nm2, g2 in _named(g, nm):
+                run.assume(g2)
         if c.opts.get('post_effect'):
             c.opts['post_effect'](sc2, self)
         return res
